@@ -1,2 +1,3 @@
 pub mod prog;
 pub mod skel;
+pub mod tokens;
